@@ -17,7 +17,11 @@ RULE = ("ints: (a) every integer within +-RADIUS (quick 1500, thorough 20000) of
         "|n|<=2.1e17 biased to those anchors; non-trivial int = |n| >= 2^53-2000 or (fractional part non-zero and "
         "|n| >= 10^8). strings: grammar around \\d{1,10}\\.\\d{1,8} with exactly one defect from a catalogue, or valid; "
         "non-trivial string = a defective string, or a valid one with >=2 digits on both sides. distinct = distinct "
-        "canonical JSON of the case.")
+        "canonical JSON of the case. callers: nested balance dictionaries (keys of wallet_balance, integer leaves from the "
+        "integer generator incl. negatives, None / text leaves) through dict_values_to_lbc - every integer leaf must come out as its "
+        "exact plain decimal, other leaves and the structure unchanged; and dewies_to_lbc(n) wrapped in a Decimal through "
+        "ExchangeRateManager.to_dewies('LBC', .) - n again, or ValueError (exponent notation below 1e-6 LBC is rejected, not rounded); "
+        "non-trivial there = a negative or >= 2^53-2000 amount.")
 ASSUMPTIONS = [
     "oracle is decimal.Decimal with 60 digits precision and Python integer arithmetic",
     "strings made only of non-ASCII unicode digits are a don't-care when the value returned is exact "
